@@ -101,6 +101,25 @@ Theorem C16_quiescent_clean_b_holds : forall sf honour kstr ops,
 Proof. exact quiescent_clean_b_holds. Qed.
 Print Assumptions C16_quiescent_clean_b_holds.
 
+(** "every number of concurrent orders ..., every interleaving of their Present/CleanUp calls":
+    each order is the program [Present; CleanUp] (with its own faults); [merge] is any
+    interleaving of any number of such programs.  Every interleaving is a history of the
+    discipline and ends with nothing pending ... *)
+Theorem C16_all_interleavings_disciplined : forall ts ops,
+  merge (map prog ts) ops -> disc ops = true /\ spending ops = [].
+Proof. exact all_interleavings_disciplined. Qed.
+Print Assumptions C16_all_interleavings_disciplined.
+
+(** ... hence leaves the solver state exactly as it found it, under every combination of
+    cancelled contexts, failed Store, failed AppendRecords, addresses in use and bind errors
+    (a Delete / DeleteRecords that is itself made to fail can leave the token / record) *)
+Theorem C16_interleavings_leave_nothing : forall sf honour ts ops,
+  merge (map prog ts) ops ->
+  storage_delete_fault ops = false -> provider_delete_fault ops = false ->
+  srun sf honour ops = sinit.
+Proof. exact interleavings_leave_nothing. Qed.
+Print Assumptions C16_interleavings_leave_nothing.
+
 (** * Non-vacuity and worked instances *)
 Local Open Scope N_scope.
 Definition ex_sf := safe (tbl_lower []) (tbl_space []).
@@ -130,3 +149,14 @@ Example C16_hypotheses_satisfiable :
   dns_recs (srun ex_sf true h2) = [orec d2] /\
   listening (srun ex_sf true h2) ex_addr = true.
 Proof. vm_compute. repeat split; try reflexivity. right; left; reflexivity. Qed.
+
+(** an interleaving of three order programs (two on one address, one DNS), with faults *)
+Example C16_merge_inhabited :
+  merge (map prog [(o1, ok, cancelled); (o2, store_fails, ok); (d1, cancelled, ok)])
+        [SPresent o1 ok; SPresent d1 cancelled; SPresent o2 store_fails; SClean o1 cancelled; SClean d1 ok; SClean o2 ok].
+Proof.
+  cbn [map prog].
+  apply (merge_step [] _ _ _). apply (merge_step [_; _] _ _ []). apply (merge_step [_] _ _ [_]).
+  apply (merge_step [] _ _ _). apply (merge_step [_; _] _ _ []). apply (merge_step [_] _ _ [_]).
+  apply merge_nil. repeat constructor.
+Qed.
